@@ -323,6 +323,7 @@ class Family:
         tl = any(isinstance(f.output_name, tuple) for f in o.pl.functions)
         self.events[-1]["_feats"]["merged_tuple_leaf"] = tl
         if r is not None:
+            self.events[-1]["_feats"]["groups"] = sum(type(f).__name__ == "NestedPipeFunc" for f in r.functions)
             nested_tuple = any(type(f).__name__ == "NestedPipeFunc" and any(
                 isinstance(g.output_name, tuple) and not list(f.pipeline.graph.successors(g)) for g in f.pipeline.functions)
                 for f in r.functions)
@@ -471,7 +472,46 @@ class Family:
 
 
 # ---- random operations (input generation only: every choice is recorded in the script) -----------------------------------
-SCOPES = ["s", "t", "u"]
+SCOPES = ["s", "t", "u", "x"]          # every scope is also a PREFIX of some pool name ("x" / "x_scale", "s" / "s_in", ...)
+# Names are drawn from a pool by a seeded permutation, so that the alphabetical order of output / parameter names is
+# independent of the order in which the functions were created (simplified_pipeline orders its groups by output name).
+# No pool name equals a scope, a MapSpec axis letter, or a name the generator invents later (r*, m*, q*, j*, k*).
+NAME_POOL = ["alpha", "beta", "gamma", "delta", "kappa", "lam", "omega", "phi", "psi", "rho", "sigma", "tau", "theta", "zeta",
+             "x_scale", "x_off", "s_in", "t_val", "u_0", "a1", "b2", "c3", "d4", "e5", "g6", "h7", "p8", "v9", "w_", "y_", "z_"]
+
+
+def permute_names(rng: random.Random, tdesc: dict, pdesc: dict | None = None, inputs=None, kinds=None):
+    """Rename every parameter / output of a generated description through a seeded permutation of NAME_POOL (term heads
+    are the new output names: this happens BEFORE the pipeline is built, it is not a rewrite under test)."""
+    import re
+    names = sorted({n for f in tdesc["funcs"] for n in list(f["params"]) + list(f["outputs"])})
+    pool = list(NAME_POOL)
+    rng.shuffle(pool)
+    if len(names) > len(pool):
+        return tdesc, pdesc, inputs, kinds
+    m = dict(zip(names, pool))
+
+    def r(n):
+        return m.get(n, n)
+
+    def rspecs(ss):
+        return [{"name": r(x["name"]), "axes": list(x["axes"])} for x in ss]
+    t2 = {"funcs": [dict(f, params=[r(x) for x in f["params"]], outputs=[r(x) for x in f["outputs"]],
+                         defaults=[[r(k), v] for k, v in f["defaults"]], bound=[[r(k), v] for k, v in f["bound"]],
+                         ms={"ins": rspecs(f["ms"]["ins"]), "outs": rspecs(f["ms"]["outs"])}) for f in tdesc["funcs"]]}
+    p2 = None
+    if pdesc is not None:
+        pat = re.compile(r"\b(" + "|".join(re.escape(n) for n in sorted(names, key=len, reverse=True)) + r")\b(?=\[)")
+        p2 = {"funcs": [dict(f, params=[r(x) for x in f["params"]], outputs=[r(x) for x in f["outputs"]],
+                             defaults={r(k): v for k, v in (f.get("defaults") or {}).items()},
+                             bound={r(k): v for k, v in (f.get("bound") or {}).items()},
+                             mapspec=pat.sub(lambda mm: m[mm[1]], f["mapspec"]) if f.get("mapspec") else f.get("mapspec"))
+                        for f in pdesc["funcs"]]}
+    i2 = [[r(n), v] for n, v in inputs] if inputs is not None else None
+    k2 = {r(n): v for n, v in kinds.items()} if kinds is not None else None
+    return t2, p2, i2, k2
+
+
 
 
 def _funcs_sorted(pl) -> list:
@@ -503,7 +543,7 @@ def chainify(rng: random.Random, tdesc: dict) -> dict:
         if outs_before and rng.random() < 0.6:
             keep = [p for p in f["params"] if p in outs_before][:1] or [rng.choice(outs_before)]
             if rng.random() < 0.4:
-                keep.append(rng.choice(["x", "y"]))
+                keep.append(rng.choice(["x", "y"]))           # (names are permuted afterwards)
             f["params"] = list(dict.fromkeys(keep))
             f["defaults"] = [d for d in f["defaults"] if d[0] in f["params"]]
             f["bound"] = [b for b in f["bound"] if b[0] in f["params"]]
@@ -575,14 +615,15 @@ def gen_op(fam: Family, rng: random.Random, counter: list[int], *, mutation: boo
             cand = [] if merged else [(f, p) for f in _funcs_sorted(pl) for p in f.parameters
                                       if p not in f._defaults and not (f.mapspec and p in f.mapspec.input_names)]
             if cand:
-                f, p = rng.choice(cand)
+                hot = [(f, p) for f, p in cand if f.bound]     # a non-empty bound dict is what copy()/join hand on by reference
+                f, p = rng.choice(hot if hot and rng.random() < 0.6 else cand)
                 fo = [f.output_name] if isinstance(f.output_name, str) else list(f.output_name)
                 return [{"op": "update_bound", "src": src, "f": fo, "p": p, "v": {"f": f"@m_b{c}", "a": []}}]
             k = "update_renames"
         names = roots + outs
         if not names:
             return []
-        return [{"op": "update_renames", "src": src, "ren": {rng.choice(names): f"m{c}"}, "as": "mutate"}]
+        return [{"op": "update_renames", "src": src, "ren": {rng.choice(names): f"{rng.choice('bmy')}m{c}"}, "as": "mutate"}]
     scoped = any("." in n for n in roots + outs)
     weights = {"copy": 2, "pickle": 2, "join": 3, "update_renames": 2, "update_scope": 3, "remove_scope": 3 if scoped else 0,
                "nest": 4 if len(pl.functions) >= 2 else 0, "simplified": (0.3 if mapped else 4) if len(pl.functions) >= 2 else 0,
@@ -599,7 +640,8 @@ def gen_op(fam: Family, rng: random.Random, counter: list[int], *, mutation: boo
             return [{"op": "copy", "src": src}]
         ks = rng.sample(names, min(len(names), rng.choice([1, 1, 2])))
         return [{"op": "update_renames", "src": src,
-                 "ren": {k: (f"{rng.choice(SCOPES)}.r{c}_{j}" if rng.random() < 0.25 else f"r{c}_{j}") for j, k in enumerate(ks)}}]
+                 "ren": {k: (f"{rng.choice(SCOPES)}.{rng.choice('cnr')}r{c}_{j}" if rng.random() < 0.25
+                             else f"{rng.choice('cnr')}r{c}_{j}") for j, k in enumerate(ks)}}]
     if kind == "update_scope":
         def pick(pool):
             r = rng.random()
@@ -653,7 +695,8 @@ def gen_op(fam: Family, rng: random.Random, counter: list[int], *, mutation: boo
                 else:
                     q = f"q{pid}_{j}{len(params)}"
                     params.append(q)
-            outs_ = [f"j{pid}_{j}"] if rng.random() < 0.8 else [f"j{pid}_{j}", f"j{pid}_{j}b"]
+            jl = rng.choice("afjz")
+            outs_ = [f"{jl}j{pid}_{j}"] if rng.random() < 0.8 else [f"{jl}j{pid}_{j}", f"{jl}j{pid}_{j}b"]
             produce_root = [(cur, og) for cur, og in vis if cur in roots and og not in shared and cur not in o.lift
                             and fam.base_vals.get(og, {"f": ""})["f"] != "#arr"]
             if j == 0 and produce_root and rng.random() < 0.25:
@@ -683,11 +726,13 @@ def run_family(job: dict) -> dict:
         tdesc = c02.random_desc(rng, rng.randint(2, job["maxfuncs"]))
         if rng.random() < 0.4:
             tdesc = chainify(rng, tdesc)
+        tdesc, _, _, _ = permute_names(random.Random(job["seed"] ^ 0x5EED), tdesc)
         fam.do({"op": "new", "tdesc": tdesc, "pdesc": pcall.tla_desc_to_py(tdesc), "inputs": [], "kinds": {}})
     else:
         case = gen_map.random_map_case(rng, rng.randint(1, 3), max_rank=2, max_size=2)
-        fam.do({"op": "new", "tdesc": desc_to_tla(case["desc"]), "pdesc": case["desc"], "inputs": case["inputs"],
-                "kinds": case["kinds"]})
+        td, pd, inp, kd = permute_names(random.Random(job["seed"] ^ 0x5EED), desc_to_tla(case["desc"]), case["desc"],
+                                        case["inputs"], case["kinds"])
+        fam.do({"op": "new", "tdesc": td, "pdesc": pd, "inputs": inp, "kinds": kd})
     fam.do({"op": "eval_all", "step": 0})
     n = rng.randint(1, job["maxlen"])
     mut_at = rng.randint(0, n) if rng.random() < 0.7 else -1
@@ -705,6 +750,87 @@ def run_family(job: dict) -> dict:
             if ops:
                 fam.do({"op": "eval_all", "step": len(fam.script)})
     return {"ev": fam.events, "script": fam.script, "marks": fam.marks, "mode": job["mode"]}
+
+
+# ---- deterministic histories (every tier): shapes the random generator reaches only by luck ----------------------------------
+def _f(name: str, params: list[str], outs: list[str], dfl: dict | None = None, bnd: dict | None = None) -> dict:
+    return {"name": name, "params": params, "outputs": outs, "defaults": [[k, {"f": v, "a": []}] for k, v in (dfl or {}).items()],
+            "bound": [[k, {"f": v, "a": []}] for k, v in (bnd or {}).items()], "has_ms": False, "ms": {"ins": [], "outs": []},
+            "internal": [], "cache": False}
+
+
+def _new(funcs: list[dict]) -> dict:
+    t = {"funcs": funcs}
+    return {"op": "new", "tdesc": t, "pdesc": pcall.tla_desc_to_py(t), "inputs": [], "kinds": {}}
+
+
+def directed_scripts() -> list[dict]:
+    """{"name", "script", "min_groups"}.
+    simplify-*: simplified_pipeline must build >= 2 nested groups where the group whose head output sorts FIRST reads an
+      interior (non-head) output of the group whose head sorts LAST (groups are ordered by head name, not topologically);
+      variants: default on the consuming parameter, interior output of a tuple, a third group, plain consumer outside.
+    scope-prefix: update_scope with a scope that is a prefix of parameter / output names ("x" vs "x_scale").
+    bound-alias-*: update_bound on a function whose NON-EMPTY bound dict went through copy() / join / | / pickle."""
+    def with_evals(ops: list[dict]) -> list[dict]:
+        out = []
+        for k, op in enumerate(ops):
+            out += [op, {"op": "eval_all", "step": 2 * k + 1}]
+        return out
+    A = [_f("a1", ["x_in"], ["p_mid"]), _f("a2", ["p_mid"], ["zq_head"])]
+    cases = []
+    s1 = A + [_f("b1", ["p_mid", "zq_head", "y_in"], ["r_mid"]), _f("b2", ["r_mid"], ["bs_head"])]
+    cases.append(("simplify-interior-read-by-earlier-group", [_new(s1), {"op": "simplified", "src": 1, "out": "bs_head"},
+                                                              {"op": "copy", "src": 2}], 2))
+    s2 = A + [_f("b1", ["p_mid", "zq_head", "y_in"], ["r_mid"], dfl={"p_mid": "@d_p_mid"}), _f("b2", ["r_mid"], ["bs_head"])]
+    cases.append(("simplify-interior-with-default-on-consumer", [_new(s2), {"op": "simplified", "src": 1, "out": "bs_head"},
+                                                                 {"op": "pickle", "src": 2, "how": "pickle"}], 2))
+    s3 = [_f("a1", ["x_in"], ["p_mid", "p_two"]), _f("a2", ["p_mid"], ["zq_head"]),
+          _f("b1", ["p_two", "zq_head", "y_in"], ["r_mid"]), _f("b2", ["r_mid"], ["bs_head", "bs_two"])]
+    cases.append(("simplify-interior-tuple-output", [_new(s3), {"op": "simplified", "src": 1, "out": "bs_head"}], 2))
+    s4 = s1 + [_f("c1", ["p_mid", "r_mid", "bs_head", "zq_head", "w_in"], ["t_mid"]), _f("c2", ["t_mid"], ["aa_head"])]
+    cases.append(("simplify-three-groups", [_new(s4), {"op": "simplified", "src": 1, "out": "aa_head"},
+                                            {"op": "update_scope", "src": 2, "scope": "s", "inputs": "*", "outputs": "*",
+                                             "exclude": None}], 3))
+    s5 = s1 + [_f("plain", ["p_mid", "v_in", "bs_head"], ["aa_leaf"])]
+    cases.append(("simplify-interior-also-read-outside", [_new(s5), {"op": "simplified", "src": 1, "out": "aa_leaf"}], 2))
+    s6 = [_f("a1", ["x_in"], ["p_mid"]), _f("a2", ["p_mid"], ["bq_head"]),                       # control: consumer sorts last
+          _f("b1", ["p_mid", "bq_head", "y_in"], ["r_mid"]), _f("b2", ["r_mid"], ["zs_head"])]
+    cases.append(("simplify-interior-read-by-later-group", [_new(s6), {"op": "simplified", "src": 1, "out": "zs_head"}], 2))
+    sp = [_f("f", ["x_scale", "x_off", "s_in"], ["xy_out"], dfl={"x_off": "@d_x_off"}),
+          _f("g", ["xy_out", "t_val", "x_scale"], ["t_res"], bnd={"t_val": "@b_t_val"})]
+    cases.append(("scope-prefix", [_new(sp),
+                                   {"op": "update_scope", "src": 1, "scope": "x", "inputs": "*", "outputs": "*", "exclude": None},
+                                   {"op": "copy", "src": 1},
+                                   {"op": "update_scope", "src": 2, "scope": "x", "inputs": "*", "outputs": "*", "exclude": None},
+                                   {"op": "update_scope", "src": 2, "scope": "t", "inputs": ["x.x_scale", "x.s_in"],
+                                    "outputs": ["x.t_res"], "exclude": None},
+                                   {"op": "update_scope", "src": 1, "scope": None, "inputs": "*", "outputs": "*", "exclude": None},
+                                   {"op": "update_scope", "src": 1, "scope": "s", "inputs": ["s_in", "x_off"], "outputs": None,
+                                    "exclude": None},
+                                   {"op": "update_scope", "src": 1, "scope": "xy", "inputs": None, "outputs": "*",
+                                    "exclude": ["t_res"]}], 0))
+    bd = [_f("fa", ["x_in", "y_in"], ["a_out"], bnd={"y_in": "@b_y"}),
+          _f("fb", ["a_out", "z_in", "w_in"], ["b_out"], bnd={"z_in": "@b_z"})]
+    part = [_f("fp", ["b_out", "q_in"], ["p_out"], bnd={"q_in": "@b_q"})]
+    for how, ops in (("copy", [{"op": "copy", "src": 1}]),
+                     ("join", [_new(part), {"op": "join", "src": 1, "partner": 2, "how": "join"}]),
+                     ("or", [_new(part), {"op": "join", "src": 1, "partner": 2, "how": "or"}]),
+                     ("pickle", [{"op": "pickle", "src": 1, "how": "pickle"}])):
+        new_id = 2 if how in ("copy", "pickle") else 3
+        cases.append((f"bound-alias-{how}",
+                      [_new(bd)] + ops +
+                      [{"op": "update_bound", "src": new_id, "f": ["b_out"], "p": "z_in", "v": {"f": "@m_new_z", "a": []}},
+                       {"op": "update_bound", "src": 1, "f": ["a_out"], "p": "y_in", "v": {"f": "@m_new_y", "a": []}},
+                       {"op": "update_bound", "src": new_id, "f": ["a_out"], "p": "x_in", "v": {"f": "@m_new_x", "a": []}}]
+                      + ([{"op": "update_bound", "src": 2, "f": ["p_out"], "p": "q_in", "v": {"f": "@m_new_q", "a": []}}]
+                         if how in ("join", "or") else []), 0))
+    return [{"name": n, "script": with_evals(ops), "min_groups": g} for n, ops, g in cases]
+
+
+def run_directed(case: dict) -> dict:
+    tr = run_script(case["script"])
+    tr["mode"] = "directed:" + case["name"]
+    return tr
 
 
 def run_script(script: list[dict]) -> dict:
@@ -877,6 +1003,17 @@ def run(ctx: Ctx) -> None:
             for k in range(ncall)]
     jobs += [{"seed": ctx.seed * 1000003 + 500000 + k, "mode": "map", "maxlen": maxlen, "maxfuncs": 3} for k in range(nmap)]
     traces = run_jobs(jobs, 4 if quick else 8)
+    directed = directed_scripts()
+    dtraces = [run_directed(c) for c in directed]
+    shape: dict[str, Any] = {}
+    for c, t in zip(directed, dtraces):
+        groups = [e["_feats"].get("groups", 0) for e in t["ev"] if e["e"] == "rewrite" and e["kind"] == "simplified"]
+        refused = [e["kind"] + ":" + e["exc"] for e in t["ev"] if e["e"] == "refuse"]
+        shape[c["name"]] = {"nested_groups": groups, "refused": refused, "events": len(t["ev"])}
+        if c["min_groups"] and not refused and (not groups or groups[0] < c["min_groups"]):
+            raise MachineryError(f"directed case {c['name']} no longer has the intended shape: {shape[c['name']]}")
+    ctx.extra["directed_cases"] = shape
+    traces += dtraces
     kinds_seen: dict[str, int] = {}
     for t in traces:
         rw = [e for e in t["ev"] if e["e"] in ("rewrite", "mutate")]
